@@ -30,6 +30,14 @@ func init() {
 		"verifAssert":        apiAssert,
 		"verifCover":         apiCover,
 		"verifTry":           apiTry,
+		"verifOutput":        func(fr *frame, a []value) value { return nil },
+		"verifOrderInsertion": func(fr *frame, a []value) value { fr.i.orderFree = false; return nil },
+		"verifOrderDeviations": func(fr *frame, a []value) value {
+			if !fr.i.orderFree {
+				return 0
+			}
+			return fr.i.sh.cfg.MaxOrderDeviations - fr.i.orderBudget
+		},
 		"verifMemo":          apiMemo,
 		"verifAnd":           func(fr *frame, a []value) value { return fr.i.vAnd(a[0], a[1]) },
 		"verifOr":            func(fr *frame, a []value) value { return fr.i.vOr(a[0], a[1]) },
@@ -40,7 +48,11 @@ func init() {
 		"verifUF1":           apiUF,
 		"verifUF2":           apiUF,
 		"verifKnown":         apiKnown,
-		"verifOrderFree":     func(fr *frame, a []value) value { fr.i.orderFree = true; return nil },
+		"verifOrderFree":     func(fr *frame, a []value) value {
+			fr.i.orderFree = true
+			fr.i.orderBudget = fr.i.sh.cfg.MaxOrderDeviations
+			return nil
+		},
 		"verifCapNondet":     func(fr *frame, a []value) value { fr.i.capNondet = true; return nil },
 		"verifPrint":         apiPrint,
 		"verifSymbolic":      func(fr *frame, a []value) value { return true },
